@@ -1,83 +1,7 @@
 ---------------------------- MODULE MC_DicomJson ----------------------------
-(* Test vectors for the Annex F operators, checked by TLC as assumptions:   *)
-(* RFC 4648 section 10 base64 vectors, two's complement little-endian       *)
-(* bytes, decimal parsing, hexadecimal tag keys, padding.                   *)
-EXTENDS DicomJson
+(* Stand-alone run of the test vectors in DicomJsonVectors. *)
+EXTENDS DicomJsonVectors
 VARIABLE x
-N(neg, i, f) == [sp |-> "", neg |-> neg, int |-> i, frac |-> f]
-
-ASSUME Base64(<<>>) = ""
-ASSUME Base64(<<102>>) = "Zg=="
-ASSUME Base64(<<102, 111>>) = "Zm8="
-ASSUME Base64(<<102, 111, 111>>) = "Zm9v"
-ASSUME Base64(<<102, 111, 111, 98>>) = "Zm9vYg=="
-ASSUME Base64(<<102, 111, 111, 98, 97>>) = "Zm9vYmE="
-ASSUME Base64(<<102, 111, 111, 98, 97, 114>>) = "Zm9vYmFy"
-ASSUME Base64(<<207, 76, 125, 115, 203, 251>>) = "z0x9c8v7"
-ASSUME Base64(<<255, 255, 254>>) = "///+"
-ASSUME Base64(<<0, 1>>) = "AAE="
-
-ASSUME LEInt(N(FALSE, "258", ""), 2) = <<2, 1>>
-ASSUME LEInt(N(FALSE, "16909060", ""), 4) = <<4, 3, 2, 1>>
-ASSUME LEInt(N(FALSE, "4294967295", ""), 4) = <<255, 255, 255, 255>>
-ASSUME LEInt(N(TRUE, "1", ""), 2) = <<255, 255>>
-ASSUME LEInt(N(TRUE, "32768", ""), 2) = <<0, 128>>
-ASSUME LEInt(N(TRUE, "2147483648", ""), 4) = <<0, 0, 0, 128>>
-ASSUME LEInt(N(FALSE, "72623859790382856", ""), 8) = <<8, 7, 6, 5, 4, 3, 2, 1>>
-ASSUME LEInt(N(FALSE, "18446744073709551615", ""), 8) = <<255, 255, 255, 255, 255, 255, 255, 255>>
-ASSUME LEInt(N(TRUE, "9223372036854775808", ""), 8) = <<0, 0, 0, 0, 0, 0, 0, 128>>
-ASSUME LEInt(N(FALSE, "9223372036854775807", ""), 8) = <<255, 255, 255, 255, 255, 255, 255, 127>>
-ASSUME LEInt(N(TRUE, "256", ""), 8) = <<0, 255, 255, 255, 255, 255, 255, 255>>
-
-ASSUME ParseDec("5") = N(FALSE, "5", "")
-ASSUME ParseDec("+007") = N(FALSE, "7", "")
-ASSUME ParseDec("-12") = N(TRUE, "12", "")
-ASSUME ParseDec("0.50") = N(FALSE, "0", "5")
-ASSUME ParseDec("160.000 ") = N(FALSE, "160", "")
-ASSUME ParseDec("-1.5E+2") = N(TRUE, "150", "")
-ASSUME ParseDec("1.25e1") = N(FALSE, "12", "5")
-ASSUME ParseDec("125e-2") = N(FALSE, "1", "25")
-ASSUME ParseDec("5e-3") = N(FALSE, "0", "005")
-ASSUME ParseDec("-0.0") = N(FALSE, "0", "")
-ASSUME ParseDec(" 42") = N(FALSE, "42", "")
-ASSUME ParseDec(".5") = N(FALSE, "0", "5")
-ASSUME ParseDec("abc").sp = "bad" /\ ParseDec("").sp = "bad" /\ ParseDec("1e").sp = "bad" /\ ParseDec("1.2.3").sp = "bad"
-ASSUME PlainText(N(TRUE, "150", "")) = "-150" /\ PlainText(N(FALSE, "0", "5")) = "0.5"
-
-ASSUME FitsI32(N(FALSE, "2147483647", "")) /\ ~FitsI32(N(FALSE, "2147483648", ""))
-ASSUME FitsI32(N(TRUE, "2147483648", "")) /\ ~FitsI32(N(TRUE, "2147483649", "")) /\ FitsI32(N(FALSE, "0", ""))
-ASSUME ~FitsI32(N(FALSE, "9223372036854775807", ""))
-
-ASSUME Hex8(8, 24) = "00080018" /\ Hex8(32736, 16) = "7FE00010" /\ Hex8(43981, 239) = "ABCD00EF" /\ Hex8(65535, 65535) = "FFFFFFFF"
-ASSUME StripPad("ab  ") = "ab" /\ StripPad(" a") = " a" /\ StripPad("") = "" /\ StripPad("  ") = ""
-
-(* Annex F.4 example fragments *)
-El(g, e, vr, rep, vals) == [g |-> g, e |-> e, vr |-> vr, rep |-> rep, vals |-> vals]
-Ex == <<El(16, 16, "PN", "strs", <<"Wang^XiaoDong">>), El(8, 24, "UI", "strs", <<"1.2.392.200036.9116.2.2.2.1762893313.1029997326.945873">>),
-        El(8, 97, "CS", "strs", <<"CT", "PET">>), El(32, 4614, "IS", "i32", <<N(FALSE, "4", "")>>), El(8, 144, "PN", "empty", <<>>)>>
-ASSUME Shape(Ex) = JObj(<<
-   Mem("00080018", JObj(<<Mem("vr", JStr("UI")), Mem("Value", JArr(<<JStr("1.2.392.200036.9116.2.2.2.1762893313.1029997326.945873")>>))>>)),
-   Mem("00080061", JObj(<<Mem("vr", JStr("CS")), Mem("Value", JArr(<<JStr("CT"), JStr("PET")>>))>>)),
-   Mem("00080090", JObj(<<Mem("vr", JStr("PN"))>>)),
-   Mem("00100010", JObj(<<Mem("vr", JStr("PN")), Mem("Value", JArr(<<JObj(<<Mem("Alphabetic", JStr("Wang^XiaoDong"))>>)>>))>>)),
-   Mem("00201206", JObj(<<Mem("vr", JStr("IS")), Mem("Value", JArr(<<JNum(N(FALSE, "4", ""))>>))>>))>>)
-ASSUME Conforms(Ex, Shape(Ex))
-(* the validator rejects the display form of a tag, lower case keys, a number for a PN *)
-AtEl == <<El(32, 20480, "AT", "tags", <<[g |-> 8, e |-> 24]>>)>>
-ASSUME Conforms(AtEl, JObj(<<Mem("00205000", JObj(<<Mem("vr", JStr("AT")), Mem("Value", JArr(<<JStr("00080018")>>))>>))>>))
-ASSUME ~Conforms(AtEl, JObj(<<Mem("00205000", JObj(<<Mem("vr", JStr("AT")), Mem("Value", JArr(<<JStr("(0008,0018)")>>))>>))>>))
-ASSUME ~Conforms(AtEl, JObj(<<Mem("00205000", JObj(<<Mem("Value", JArr(<<JStr("00080018")>>))>>))>>))
-ASSUME ~Conforms(<<El(43981, 239, "UN", "empty", <<>>)>>, JObj(<<Mem("abcd00ef", JObj(<<Mem("vr", JStr("UN"))>>))>>))
-ASSUME ~Conforms(<<El(8, 128, "LO", "empty", <<>>)>>, JObj(<<Mem("00080080", JObj(<<Mem("vr", JStr("LO")), Mem("Value", JArr(<<>>))>>))>>))
-ASSUME ~Conforms(<<El(40, 16, "US", "u16", <<N(FALSE, "5", "")>>)>>,
-                 JObj(<<Mem("00280010", JObj(<<Mem("vr", JStr("US")), Mem("Value", JArr(<<JStr("5")>>))>>))>>))
-ASSUME Conforms(<<El(32, 19, "IS", "strs", <<"5 ">>)>>,
-                 JObj(<<Mem("00200013", JObj(<<Mem("vr", JStr("IS")), Mem("Value", JArr(<<JNum(N(FALSE, "5", ""))>>))>>))>>))
-ASSUME ~SameDs(AtEl, <<El(32, 20480, "AT", "tags", <<[g |-> 8, e |-> 25]>>)>>)
-ASSUME SameDs(<<El(32, 19, "IS", "i32", <<N(FALSE, "5", "")>>)>>, <<El(32, 19, "IS", "strs", <<"5">>)>>)
-ASSUME ~SameDs(<<El(32, 19, "IS", "i32", <<N(FALSE, "5", "")>>)>>, <<El(32, 19, "IS", "strs", <<"6">>)>>)
-ASSUME SameDs(<<El(32736, 16, "OW", "u16", <<N(FALSE, "258", "")>>)>>, <<El(32736, 16, "OW", "u8", <<N(FALSE, "2", ""), N(FALSE, "1", "")>>)>>)
-
 Init == x = 0
 Next == UNCHANGED x
 Spec == Init /\ [][Next]_x
